@@ -86,6 +86,7 @@ func (w *World) Close() {
 	if w.H != nil && w.H.Server != nil {
 		w.H.Server.Close()
 	}
+	tsx.CloseTS(w.TS)
 	os.RemoveAll(w.Dir)
 }
 
